@@ -58,6 +58,7 @@ LIST_API = {
     "__len__": dict(params=[], kind="read"),
     "__reversed__": dict(params=[], kind="read"),
     "__contains__": dict(params=["key"], kind="read"),       # inherited: collections.abc.Sequence.__contains__
+    "index": dict(params=["value"], kind="read"),            # inherited: Sequence.index, one-argument form
     "__call__": dict(params=[], kind="read"),
     "__eq__": dict(params=["other"], kind="read"),
     "__lt__": dict(params=["other"], kind="read"),
@@ -68,7 +69,7 @@ LIST_API = {
     "__str__": dict(params=[], kind="read"),
 }
 # inherited mixins with loops / generator expressions are handled by props.mixins (invariants / bounded)
-LOOPING_MIXINS = {"list": ["index", "count"]}
+LOOPING_MIXINS = {"list": ["index", "count"]}      # index: only its one-argument form is verified
 
 
 def api_of(kind):
@@ -186,6 +187,8 @@ class Expect:
                 self._from(T["reversed"], [])
             elif meth == "__contains__":
                 self._from(T["contains"], [a["key"]])
+            elif meth == "index":
+                self._from(T["index"], [a["value"]])
             elif meth == "__call__":
                 self.result = lambda v: v
             elif meth == "__eq__":
